@@ -405,8 +405,10 @@ func walkAggregation(expr string, n *promParser.AggregateExpr) (src []Source) {
 			s.Aggregation = n
 			s.Operation = "count_values"
 			// Param is the label to store the count value in.
-			s = includeLabel(s, n.Param.(*promParser.StringLiteral).Val)
-			s = guaranteeLabel(s, n.Param.(*promParser.StringLiteral).Val)
+			if label, ok := stringLiteralValue(n.Param); ok {
+				s = includeLabel(s, label)
+				s = guaranteeLabel(s, label)
+			}
 			s = excludeLabel(s, "Aggregation removes metric name.", n.PosRange, labels.MetricName)
 			src = append(src, s)
 		}
@@ -574,7 +576,9 @@ If you're hoping to get instance specific labels this way and alert when some ta
 	case "label_replace", "label_join":
 		// One label added to the results.
 		s.Returns = promParser.ValueTypeVector
-		s = guaranteeLabel(s, n.Args[1].(*promParser.StringLiteral).Val)
+		if label, ok := stringLiteralValue(n.Args[1]); ok {
+			s = guaranteeLabel(s, label)
+		}
 
 	case "pi":
 		s.Returns = promParser.ValueTypeScalar
@@ -1025,5 +1029,20 @@ func FindPosition(expr string, within posrange.PositionRange, fn string) posrang
 	return posrange.PositionRange{
 		Start: within.Start + posrange.Pos(idx[0]),
 		End:   within.Start + posrange.Pos(idx[1]-1),
+	}
+}
+
+// stringLiteralValue returns the value of a string literal argument,
+// which the PromQL parser also accepts when it's wrapped in parentheses.
+func stringLiteralValue(expr promParser.Expr) (string, bool) {
+	for {
+		switch v := expr.(type) {
+		case *promParser.ParenExpr:
+			expr = v.Expr
+		case *promParser.StringLiteral:
+			return v.Val, true
+		default:
+			return "", false
+		}
 	}
 }
